@@ -25,6 +25,24 @@ CHECKS = {
  "C13": dict(design="6/C13", technique="Coq proof (rows_law, record_state_chain, async_once on the actor net) + relational runs under all record-setting combinations compared with the probe nodes' host log",
    text="Faithfulness of rows and the state chain are theorems of the model; that recording has no feedback into the execution is decided by running each case under every record-setting combination and comparing the host-side execution log.",
    note="purity holds by construction in the functional model, so for that clause only the relational runs carry weight (DESIGN 9)."),
+ "C01": dict(design="6/C01", technique="Coq proof (dataflow_unique, runner_dataflow via the certified symbolic checker, apply_window_spec, async row/window laws) + replay of recorded threaded episodes through the compiled runtime compared row by row, for every supergraph mode x prune",
+   text="Both runtimes are proved to satisfy the same dataflow equations (whose solutions are unique); on the code every executed compiled row of a recorded multi-episode experiment is compared with the recorded asynchronous row (seq, ts, rng, state, windows with payloads, output) and with the extracted model.",
+   note="The closed end-to-end statement is not assembled in Coq (C01 is _partial: the four component theorems are proved, their composition is checked per instance by check_schedule/check_sym and the replay). Lattice times only. Trusted: Coq kernel, extraction, harness, supergraph package (validated per instance)."),
+ "C07": dict(design="6/C07", technique="Coq proof (apply_window_spec) + extracted boolean schedule validator check_schedule run on rex's Timings of every instance + direct clause checker (coverage, order, once) + model/implementation row equality",
+   text="apply_window is specified for every graph; the schedule found by the external supergraph search is validated per instance (translation-validation style) by the extracted checker and a direct clause checker written from the property text.",
+   note="That the external search always finds a valid schedule is not a theorem (validated per instance). check_schedule's soundness w.r.t. a Prop-level ValidSchedule is by unfolding of forallb (not stated separately yet)."),
+ "C08": dict(design="6/C08", technique="Coq proof (runner_dataflow: a passed symbolic check implies every read returned the scheduled producer's payload, for any step function; naturality; ring arithmetic lemmas) + extracted check_sym on rex's Timings with the ring sizes rex allocated + buffer_need = get_buffer_sizes + row equality with payload-identifying probes",
+   text="Generic-payload runner proved natural and coherent; the certified symbolic checker is run on every instance with the actual ring sizes (computed, user-supplied, padded); model buffer sizes must equal rex's; recorded windows must carry exactly the producers' payloads.",
+   note="buffer_sufficient (sizes >= get_buffer_sizes always pass check_sym) is not proved in general (arithmetic core only); decided per instance. Starting steps > 0: restricted to entries whose producer ran in this execution, as the property text."),
+ "C09": dict(design="6/C09", technique="Coq proof (run_n_eq_reset_steps, rollout laws, step_override_eq, clip_spec over an abstract graph state) + translator tie of the API compositions and clipping + all API paths (eager, jit, vmap, override, out-of-range indices) compared on final graph states",
+   text="API equivalences are theorems over the abstract composition that the translator reads off rex/graph.py; jit/vmap equivalence is decided by comparing every path's final GraphState.",
+   note="jit / vmap / XLA have no Gallina counterpart (DESIGN 9)."),
+ "C12": dict(design="6/C12", technique="Coq proof (vertex law, no overlap / spacing, horizon masking, recv law, assigned step fits, first-step under the no-overtaking hypothesis + refutation witness, augment laws, acyclicity) + translator tie of rex/artificial.py kernels + model/implementation equality on generated and augmented graphs",
+   text="All clauses are theorems over the Z-tick model of generate_graphs/augment_graphs; the first-step clause needs the no-overtaking hypothesis (refuted without it: known finding F6); kernels regenerated and tied each run; graphs compared exactly on lattice delays.",
+   note="F6 (overtaking communication delays) is a recorded known finding. Off-lattice runs judged by float-tolerant recurrence checks."),
+ "C14": dict(design="6/C14", technique="Coq proof (to_graph naturality, stack/get/pad laws, padding invisible to to_networkx_graph, filter specs incl. pinned refutations) + translator tie (pad widths, indexing, filter lookup key, networkx skip conditions) + exact model/implementation comparison on random ragged records",
+   text="Conversion, stacking, padding, indexing, filtering and networkx conversion are specified and proved over polymorphic leaf types; every API is compared exactly on generated ragged multi-episode records with shadow-named connections.",
+   note="networkx upsert semantics trusted; records built from rex dataclasses directly."),
 }
 NOT_YET = "check not built yet in this session (design in DESIGN.md section 6); not claimed until its check exists"
 man = dict(version=1,
